@@ -332,6 +332,18 @@ def g_index(draw, G, S, square, forms=None):
         if form == 'arr2d':
             shp = (draw(st.integers(1, 2)), draw(st.integers(1, 2)))
         vals = draw(st.lists(st.integers(-n, n - 1), min_size=math.prod(shp), max_size=math.prod(shp)))
+        # structured values, the shapes a fast path would test for: a contiguous range; a "range" with one element
+        # repeated and one skipped (same first, last and length); sorted values
+        pat = draw(st.sampled_from(['iid', 'iid', 'iid', 'range', 'near_range', 'sorted']))
+        cnt = len(vals)
+        if pat in ('range', 'near_range') and cnt <= n:
+            a0 = draw(st.integers(0, n - cnt))
+            vals = list(range(a0, a0 + cnt))
+            if pat == 'near_range' and cnt >= 3:
+                j0 = draw(st.integers(1, cnt - 2))
+                vals[j0] = vals[j0 + draw(st.sampled_from([-1, 1]))]
+        elif pat == 'sorted':
+            vals = sorted(v % n for v in vals)
         a = np.asarray(vals, dtype=int).reshape(shp).tolist()
         norm = [v % n for v in vals]
         uniq = len(set(norm)) == len(norm)
